@@ -6,7 +6,7 @@ ITER = ["iter1", "iter2", "iter3", "iter4", "iter5", "iter3-static"]
 STATIC = ["static"]
 LIFO = ["lifo-static", "lifo-virtual", "lifo-fixed"]   # block sources driven directly
 ARENA = ["arena-%s-%s" % (s, c) for s in ("growing", "fixed") for c in ("cached", "uncached")]   # memory_arena driven directly
-POOL = ["pool-%s-%s" % (t, s) for t in ("node", "array", "small") for s in ("growing", "fixed")]
+POOL = ["pool-%s-%s" % (t, s) for t in ("node", "array", "small") for s in ("growing", "fixed", "const")]   # const: growth factor 1/1
 COLL = ["coll-%s-%s-%s" % (t, d, s) for t in ("node", "array", "small") for d in ("identity", "log2") for s in ("growing", "fixed")]
 
 HARNESS = {}
